@@ -253,7 +253,7 @@ def run_type_assignment_on_h5ad_cpu(
         process_list.append(p)
         while len(process_list) >= n_processors:
             n0 = len(process_list)
-            process_list = winnow_process_list(process_list)
+            process_list = _winnow_or_stop_workers(process_list)
             n1 = len(process_list)
             if n1 < n0:
                 row_ct += (n0-n1)*chunk_size
@@ -264,7 +264,7 @@ def run_type_assignment_on_h5ad_cpu(
                     unit='hr')
 
     while len(process_list) > 0:
-        process_list = winnow_process_list(process_list)
+        process_list = _winnow_or_stop_workers(process_list)
 
     if buffer_dir is not None:
         path_list = [n for n in buffer_dir.iterdir()]
@@ -277,6 +277,23 @@ def run_type_assignment_on_h5ad_cpu(
         output_list = list(output_list)
 
     return output_list
+
+
+def _winnow_or_stop_workers(process_list):
+    """
+    Wrapper around winnow_process_list. If one of the worker
+    processes failed, stop the workers that are still running
+    before raising the error (otherwise they would go on writing
+    to the results buffer while the caller is cleaning it up).
+    """
+    try:
+        return winnow_process_list(process_list)
+    except Exception:
+        for p in process_list:
+            if p.is_alive():
+                p.kill()
+            p.join()
+        raise
 
 
 def save_results(result, results_output_path):
